@@ -50,7 +50,11 @@ def run : St → List Op → St
   | s, [] => s
   | s, op :: ops => run (step s op) ops
 
+def cntFalse : List Bool → Nat
+  | [] => 0
+  | b :: bs => (if b then 0 else 1) + cntFalse bs
+
 /-- number of tickets whose closure has not run yet -/
-def outstanding (s : St) : Nat := (s.released.filter (· == false)).length
+def outstanding (s : St) : Nat := cntFalse s.released
 
 end DaeVerif.C13.Drain
